@@ -1,14 +1,25 @@
 import OxiVerif.Base.Driver
 import OxiVerif.Model.C10
+import OxiVerif.Spec.C10File
 /-!
-Driver for C10.  Request `txt <site> <cps>`; implementation answer `raw=<hex>;lib=<cps>`.
-MODEL  = `raw = emit s`, `lib = libDecode (libUnescape raw)`.
+Driver for C10.  Request `txt <site> <cps>`; implementation answer
+`tok=<hex>;lib=<cps>;file=<hex>` or `err:<class>` (the API refused the text).
+
+MODEL  = `tok = token carrier s`, `lib = libRoundtrip carrier s` (the library's lexer + `decode_text_string`
+         on the modelled token), the refusals of the two fill paths (`fillAccepts`) and of the note editor
+         (blank contents); `file` is the oracle's input and is echoed.
 ORACLE = the property: the text read back must be the text supplied — (a) by the library (`lib`),
-(b) by an independent reader = `specDecode (specUnescape raw)` applied to the raw bytes the real
-writer put into the file.  A failure is classed by a spec-side feature of the INPUT and by which
-reader(s) disagree; anything else is `unexpected`.
+         (b) by an independent reader: `Spec.C10File` opens the FILE the real writer produced (last
+         `startxref`, classic cross-reference sections along `/Prev`, newest entry wins), walks to the
+         value (trailer `/Info`; `/Root /Outlines /First /Title`; first page `/Annots` → `/Subtype /Text` →
+         `/Contents`; `/Root /AcroForm /Fields[0] /V`), and decodes the string per §7.9.2.2 with
+         PDFDocEncoding from Annex D — leniently: a byte whose slot Annex D leaves undefined counts as
+         the code point of the same number, so nothing is demanded where the standard is silent.
+A failure is classed by a spec-side feature of the INPUT and by which reader(s) disagree; a failure
+outside the listed classes is `unexpected`.
 -/
-open OxiVerif OxiVerif.C10
+open OxiVerif OxiVerif.C10 OxiVerif.PdfFile
+open OxiVerif.Spec.Syntax (Obj)
 
 namespace C10Drv
 
@@ -21,44 +32,131 @@ def hexNat? (s : String) : Option Nat := if s.isEmpty then none else hexNatChars
 def toHex (n : Nat) : String := String.ofList (Nat.toDigits 16 n)
 def parseCps (s : String) : Option (List Nat) := if s == "-" then some [] else (s.splitOn ".").mapM hexNat?
 def showCps (l : List Nat) : String := if l.isEmpty then "-" else ".".intercalate (l.map toHex)
+def showOpt : Option (List Nat) → String
+  | some l => showCps l
+  | none => "none"
 
-def sites : List String := ["title", "author", "subject", "keywords", "creator", "producer", "outline", "annot"]
+def infoSites : List String := ["title", "author", "subject", "keywords", "creator", "producer"]
 
-def notInPdfDoc (c : Nat) : Bool := (c < 0x20 && c != 0x09 && c != 0x0A && c != 0x0D) || c == 0x7F
+def carrierOf (site : String) : Option Carrier :=
+  if infoSites.contains site || ["outline", "annot", "field", "fielddv", "fillw"].contains site then some .lit8
+  else if site == "ifill" then some .hex8
+  else if site == "note" || site == "noteupd" then some .hex16
+  else none
+
+/-- Rust `char::is_whitespace` (Unicode `White_Space`) -/
+def isRustWs (c : Nat) : Bool :=
+  (9 ≤ c && c ≤ 13) || c == 0x20 || c == 0x85 || c == 0xA0 || c == 0x1680 || (0x2000 ≤ c && c ≤ 0x200A) ||
+  c == 0x2028 || c == 0x2029 || c == 0x202F || c == 0x205F || c == 0x3000
+
+def infoKey : String → String
+  | "title" => "Title" | "author" => "Author" | "subject" => "Subject"
+  | "keywords" => "Keywords" | "creator" => "Creator" | _ => "Producer"
+
+def strBytes : Option Obj → Option (List Nat)
+  | some (.str b) => some b
+  | _ => none
+
+def textAnnots (f : File) : List Obj :=
+  match f.pages with
+  | p :: _ =>
+    match f.getR p "Annots" with
+    | some (.arr xs) => (xs.filterMap f.resolve).filter fun d => nameIs (Obj.get d "Subtype") "Text"
+    | _ => []
+  | [] => []
+
+/-- the independent reader's walk to the string at the site -/
+def specValue (f : File) (site : String) : Option (List Nat) :=
+  if infoSites.contains site then
+    match f.getR f.trailer "Info" with
+    | some d => strBytes (f.getR d (infoKey site))
+    | none => none
+  else if site == "outline" then
+    match f.root with
+    | some r => strBytes (f.path r ["Outlines", "First", "Title"])
+    | none => none
+  else if site == "annot" then
+    match textAnnots f with
+    | d :: _ => strBytes (f.getR d "Contents")
+    | [] => none
+  else if site == "note" || site == "noteupd" then
+    match (textAnnots f).getLast? with
+    | some d => strBytes (f.getR d "Contents")
+    | none => none
+  else
+    match f.root with
+    | some r =>
+      match f.path r ["AcroForm", "Fields"] with
+      | some (.arr (x :: _)) =>
+        match f.resolve x with
+        | some d => strBytes (f.getR d (if site == "fielddv" then "DV" else "V"))
+        | none => none
+      | _ => none
+    | none => none
+
+def field (pre : String) (s : String) : Option String :=
+  if s.startsWith pre then some (String.ofList (s.toList.drop pre.length)) else none
 
 def handle (req impl : String) : String × String :=
   match req.splitOn " " with
   | ["txt", site, cps] =>
-    match parseCps cps with
-    | some s =>
-      if !sites.contains site || s.any (fun c => c > 0x10FFFF || (0xD800 ≤ c && c ≤ 0xDFFF)) then ("bad-request", "na") else
-      let raw := emit s
-      let model := s!"raw={hexField raw};lib={showCps (libDecode (libUnescape (raw.length + 1) raw))}"
-      let oracle :=
-        match impl.splitOn ";" with
-        | [r, l] =>
-          if !r.startsWith "raw=" || !l.startsWith "lib=" then "fail:unparsable-impl-answer" else
-          match bytesOfHex? (String.ofList (r.toList.drop 4)), parseCps (String.ofList (l.toList.drop 4)) with
-          | some rawI, some libI =>
-            let spec := specDecode (specUnescape (rawI.length + 1) rawI)
-            let libOk := libI == s
-            let specOk := spec == s
-            if libOk && specOk then "ok" else
-            let who := if !libOk && !specOk then "both" else if !libOk then "library" else "independent-reader"
-            let cls :=
-              if s.any (· ≥ 0x80) then "utf8-bytes-in-text-string"
-              else if s.any notInPdfDoc then "control-not-in-pdfdoc"
-              else if s.contains 0x0D then "raw-cr-read-as-lf"
-              else "unexpected"
-            -- the known classes fail in a known way; anything else is unexpected
-            let cls := if (cls == "utf8-bytes-in-text-string" && who == "both") ||
-                          (cls == "control-not-in-pdfdoc" && who == "independent-reader") ||
-                          (cls == "raw-cr-read-as-lf" && who == "independent-reader") then cls else "unexpected:" ++ cls
-            s!"fail:{site} {cls} {who}"
-          | _, _ => "fail:unparsable-impl-answer"
-        | _ => "fail:" ++ site ++ " no-readback"
-      (model, oracle)
-    | none => ("bad-request", "na")
+    match parseCps cps, carrierOf site with
+    | some s, some k =>
+      if s.any (fun c => c > 0x10FFFF || (0xD800 ≤ c && c ≤ 0xDFFF)) then ("bad-request", "na") else
+      let isFill := site == "fillw" || site == "ifill"
+      let isNote := site == "note" || site == "noteupd"
+      if isFill && !fillAccepts s then
+        ("err:encoding",
+          if impl == "err:encoding" then s!"fail:{site} refused-not-winansi"
+          else if impl.startsWith "err:" then s!"fail:{site} unexpected-error"
+          else "na")     -- accepted after all: the comparison MODEL ≠ IMPL reports it
+      else if isNote && s.all isRustWs then
+        ("err:structure", if impl.startsWith "err:" then "na" else "na")
+      else
+      let tokM := token k s
+      match impl.splitOn ";" with
+      | [t, l, fl] =>
+        match field "tok=" t, field "lib=" l, field "file=" fl with
+        | some tI, some lI, some fI =>
+          let model := s!"tok={hexField tokM};lib={showOpt (libRoundtrip k s)};file={fI}"
+          let oracle :=
+            match bytesOfHex? fI with
+            | none => "fail:unparsable-impl-answer"
+            | some fb =>
+              let libOk := parseCps lI == some s
+              match openFile fb with
+              | none => s!"fail:{site} unexpected:independent-reader-cannot-open-file"
+              | some f =>
+                match specValue f site with
+                | none => s!"fail:{site} unexpected:independent-reader-finds-no-string"
+                | some b =>
+                  -- the token the harness cut must be the string the independent walk found
+                  let cutOk := match bytesOfHex? tI with
+                    | some tb => (match Spec.Syntax.readObj 1 (tb ++ [10]) with
+                      | some (.str b', _) => b' == b
+                      | _ => false)
+                    | none => false
+                  if !cutOk then s!"fail:{site} unexpected:token-not-the-value-in-the-file" else
+                  let specOk := specDecodeLenient b == s
+                  if libOk && specOk then "ok" else
+                  let who := if !libOk && !specOk then "both" else if !libOk then "library" else "independent-reader"
+                  let cls :=
+                    if k == .hex16 then "unexpected"
+                    else if s.any (· ≥ 0x80) then "utf8-bytes-in-text-string"
+                    else if s.any (fun c => 0x18 ≤ c && c ≤ 0x1F) then "c0-read-as-accent"
+                    else if k == .lit8 && s.contains 0x0D then "raw-cr-read-as-lf"
+                    else "unexpected"
+                  let cls := if (cls == "utf8-bytes-in-text-string" && who == "both") ||
+                                (cls == "c0-read-as-accent" && who == "independent-reader") ||
+                                (cls == "raw-cr-read-as-lf" && who == "independent-reader") then cls
+                             else if cls.startsWith "unexpected" then cls else "unexpected:" ++ cls
+                  s!"fail:{site} {cls} {who}"
+          (model, oracle)
+        | _, _, _ => (s!"tok={hexField tokM};lib={showOpt (libRoundtrip k s)}", "fail:unparsable-impl-answer")
+      | _ =>
+        (s!"tok={hexField tokM};lib={showOpt (libRoundtrip k s)}",
+          if impl.startsWith "err:" then s!"fail:{site} unexpected-error" else "fail:unparsable-impl-answer")
+    | _, _ => ("bad-request", "na")
   | _ => ("bad-request", "na")
 
 end C10Drv
